@@ -264,24 +264,46 @@ ARR_ERRS = {"ExpectedArrayCommaOrEnd", "EofWhileParsing", "GetInEmptyArray", "Ge
 NONVALIDATING = ("skip_container", "skip_string_unchecked", "skip_string_unchecked2", "get_next_token", "skip_container_loop", "skip_number_unsafe", "skip_one_unchecked")
 
 
+def _schema_walker(prog):
+    """(get_by_schema_rec, the body that holds its member loop): the function itself, or the private method of the parser
+    it hands the members of a non-empty schema object to (which recurses back into it)"""
+    rec = _p(prog, "Parser::get_by_schema_rec")
+    if any(callee_is(t, "parse_str", "parse_string_raw") for b, t in rec.calls()):
+        return rec, rec
+    for b, t in rec.calls():
+        g = prog.fns.get(t["callee"])
+        if g is not None and g.self_adt == rec.self_adt and g is not rec and any(callee_is(tt, "parse_str", "parse_string_raw") for bb, tt in g.calls()) \
+                and any(tt["callee"] == rec.id for bb, tt in g.calls()):
+            return rec, g
+    return rec, rec
+
+
+def _walker_bodies(prog, name):
+    f = _p(prog, name)
+    if name.endswith("get_by_schema_rec"):
+        rec, w = _schema_walker(prog)
+        return f, ([rec] if w is rec else [rec, w]), w
+    return f, [f], f
+
+
 def r11_5(ctx):
     prog = ctx.prog()
     for sibs, errs, kind in ((OBJ_SIBS, OBJ_ERRS, "object"), (ARR_SIBS, ARR_ERRS, "array")):
         for name in sibs:
-            f = _p(prog, name)
-            got = _error_codes(prog, f)
+            f, bodies, wf = _walker_bodies(prog, name)
+            got = set().union(*[_error_codes(prog, g) for g in bodies])
             missing = sorted(errs - got)
             ctx.ob("R11.5", f"{kind}-walker-errors:{name.rsplit('::', 1)[-1]}", not missing, f.loc(),
                    f"raises {sorted(got & errs)}" + (f"; missing {missing}: a separator or key position is no longer checked as in the sibling walkers" if missing else " like its siblings"))
-            names = {t["callee"].rsplit("::", 1)[-1] for b, t in f.calls()}
+            names = {t["callee"].rsplit("::", 1)[-1] for g in bodies for b, t in g.calls()}
             bad = sorted(names & set(NONVALIDATING))
             ctx.ob("R11.5", f"{kind}-walker-skips-with-skip_one:{name.rsplit('::', 1)[-1]}", "skip_one" in names and not bad, f.loc(),
                    "unmatched members are skipped by the validating skip_one" if not bad else f"the validating walker calls non-validating primitives {bad}")
             if kind == "object":
-                keys = [(b, t) for b, t in f.calls() if callee_is(t, "parse_str", "parse_string_raw")]
-                clo = [(b, t) for b, t in f.calls() if callee_is(t, "parse_object_clo")]
-                ok = len(keys) == 1 and len(clo) == 1 and f.dominates(keys[0][0], clo[0][0])
-                ctx.ob("R11.5", f"object-walker-key-then-colon:{name.rsplit('::', 1)[-1]}", ok, f.loc(), "the key is read by the decoding key reader and followed by parse_object_clo")
+                keys = [(b, t) for b, t in wf.calls() if callee_is(t, "parse_str", "parse_string_raw")]
+                clo = [(b, t) for b, t in wf.calls() if callee_is(t, "parse_object_clo")]
+                ok = len(keys) == 1 and len(clo) == 1 and wf.dominates(keys[0][0], clo[0][0])
+                ctx.ob("R11.5", f"object-walker-key-then-colon:{name.rsplit('::', 1)[-1]}", ok, wf.loc(), "the key is read by the decoding key reader and followed by parse_object_clo")
     # the unchecked siblings use the same decoding key reader (escaped keys compare equal in both)
     for name in ("Parser::get_from_object", "Parser::get_many_keys_unchecked"):
         f = _p(prog, name)
@@ -302,7 +324,8 @@ def r11_6(ctx):
     sb, st = sl_calls[0]
     s0 = f.src(op_local(st["args"][1]))
     s1 = f.src(op_local(st["args"][2]))
-    walks = [(b, t) for b, t in f.calls() if callee_is(t, "skip_one", "get_by_schema_rec", "parse_str", "eat")]
+    rec_, wf_ = _schema_walker(prog)
+    walks = [(b, t) for b, t in f.calls() if callee_is(t, "skip_one", "get_by_schema_rec", "parse_str", "eat") or (wf_ is not f and t["callee"] == wf_.id)]
     ok_span = s0[0] == "call" and s1[0] == "call" and callee_is(s0[2], "Reader::index") and callee_is(s1[2], "Reader::index") and s0[1] != s1[1] \
         and all(f.dominates(s0[1], wb) for wb, wt in walks) and not any(wb in f.reachable_from(s1[1]) for wb, wt in walks)
     ctx.ob("R11.6", "replace:span-around-the-walk", ok_span, f.loc(st["ln"]), "the replacement text is the reader span [index before the walk, index after the walk)")
@@ -328,18 +351,18 @@ def r11_6(ctx):
     ctx.ob("R11.6", "replace:only-when-schema-leaf-or-empty-object", guarded, f.loc(), "the replacement is unreachable from the edge on which the schema object has members (key_values.is_empty() is false)" if guarded else
            "the replacement `*schema = from_slice(span)` is reachable from the edge on which the schema object has members: a non-empty object schema is overwritten by the document's object instead of being filled member by member")
     # recursion only on members found in the schema's key table; others skipped
-    recs = [(b, t) for b, t in f.calls() if callee_is(t, "get_by_schema_rec")]
-    gm = [(b, t) for b, t in f.calls() if callee_is(t, "get_mut") and "HashMap" in t["callee"]]
+    recs = [(b, t) for b, t in wf_.calls() if callee_is(t, "get_by_schema_rec")]
+    gm = [(b, t) for b, t in wf_.calls() if callee_is(t, "get_mut") and "HashMap" in t["callee"]]
     okr = len(recs) == 1 and len(gm) == 1
     if okr:
         rb, rt = recs[0]
         a = op_local(rt["args"][1])
-        sl, leaves = backward_slice(f, [a]) if a is not None else (set(), [])
-        okr = any(lf[0] == "call" and lf[1] == gm[0][0] for lf in leaves) and f.dominates(gm[0][0], rb)
+        sl, leaves = backward_slice(wf_, [a]) if a is not None else (set(), [])
+        okr = any(lf[0] == "call" and lf[1] == gm[0][0] for lf in leaves) and wf_.dominates(gm[0][0], rb)
         # the miss edge skips the member
-        skips = [b for b, t in f.calls() if callee_is(t, "skip_one") and f.dominates(gm[0][0], b)]
-        okr = okr and bool(skips) and not any(f.dominates(rb, s) or f.dominates(s, rb) for s in skips)
-    ctx.ob("R11.6", "walk:recurse-on-schema-keys-only", okr, f.loc(), "a member is descended into only through the schema's own key table (get_mut hit); a miss is skipped with skip_one")
+        skips = [b for b, t in wf_.calls() if callee_is(t, "skip_one") and wf_.dominates(gm[0][0], b)]
+        okr = okr and bool(skips) and not any(wf_.dominates(rb, s) or wf_.dominates(s, rb) for s in skips)
+    ctx.ob("R11.6", "walk:recurse-on-schema-keys-only", okr, wf_.loc(), "a member is descended into only through the schema's own key table (get_mut hit); a miss is skipped with skip_one")
 
 
 def r11_7(ctx):
@@ -350,6 +373,8 @@ def r11_7(ctx):
     prog = ctx.prog()
     for name, remain_param in (("get_many_keys", 5), ("get_many_keys_unchecked", 5), ("get_many_index", 5), ("get_many_index_unchecked", 5), ("get_by_schema_rec", None)):
         f = _p(prog, f"Parser::{name}")
+        if name == "get_by_schema_rec":
+            f = _schema_walker(prog)[1]
         nb = len(f.d["blocks"])
         loop = set()
         for b in range(nb):
